@@ -129,11 +129,11 @@ impl Engine for C19 {
 
     fn rule(&self, tier: Tier) -> String {
         format!(
-            "hover programs: doc comments of 0..2 lines, attached or detached by a blank line, on class / field / def / multiclass declarations x class references with 0..3 positional arguments followed by 0..1 named ones in parent lists, class values, nested class values and defset members x field overrides x 2 layouts; \
+            "hover programs: doc comments of 0..2 lines, attached or detached by a blank line, and four shapes with a banner comment above a blank line above the documentation (only the lines below the blank line document), on class / field / def / multiclass declarations x class references with 0..3 positional arguments followed by 0..1 named ones in parent lists, class values, nested class values and defset members x field overrides x 2 layouts; \
              plus the declaration-structure programs (wrapper depth <= {}) and the well-scoped scope programs (depth <= {}). Hover is requested at every offset of every resolved identifier; inlay hints for the whole file and for {} token-boundary sub-range. \
              non-trivial = every program; distinct by construction.",
-            tier.pick(1, 2),
-            tier.pick(1, 2),
+            tier.pick(1, 3),
+            tier.pick(1, 3),
             tier.pick("every third", "every")
         )
     }
@@ -167,8 +167,8 @@ impl Engine for C19 {
                 !ctx.expired()
             };
             hover_programs(|p| run(ctx, p, all));
-            structure_programs(tier.pick(1, 2), |p| run(ctx, p, all));
-            for_each_path(tier.pick(1, 2), |_, path| {
+            structure_programs(tier.pick(1, 3), |p| run(ctx, p, all));
+            for_each_path(tier.pick(1, 3), |_, path| {
                 for layout in 0..2 {
                     let p = well_scoped(&scope_program(path, 6, layout));
                     if !run(ctx, &p, false) {
